@@ -89,17 +89,17 @@ def opt_structure(b, progs):
         except structcheck.Unknown as ex:
             unknown += 1
             why[str(ex)[:40]] = why.get(str(ex)[:40], 0) + 1
-    mism, okc = [], 0
+    mism, okc, okc2 = [], 0, 0
     if rows:
         w = C.workdir("optst")
         try:
-            mm, okc = optstruct.compare(w, rows)
+            mm, okc, okc2 = optstruct.compare(w, rows)
             mism = [(names[i], code) for i, code in mm]
         finally:
             C.rmtree(w)
     changed = sum(1 for p in progs if ("out", p.get("pkg"), p["name"]) in trees and trees.get(("out", p["pkg"], p["name"])) != trees.get(("tmp", p["pkg"], p["name"])))
     return {"compared": len(rows), "mismatches": mism, "not_comparable": unknown, "not_comparable_why": why, "satisfy_opt_ok_side_condition": okc,
-            "programs_changed_by_the_optimiser": changed}
+            "within_end_to_end_machine_theorem": okc2, "programs_changed_by_the_optimiser": changed}
 
 
 def run(rep, tier, pid, gover="1.21", n=None):
